@@ -14,6 +14,7 @@ import (
 	"bytes"
 	"context"
 	"database/sql/driver"
+	"encoding/json"
 	"fmt"
 	"io"
 	"net/http"
@@ -723,6 +724,56 @@ func c10HasHead(out c10Out, head string) bool {
 	return false
 }
 
+// c10Carries: does the request carry the marker head inside the parameter the inventory key names
+// (file|handler|kind|name; kinds: query, form, header, path, body)?
+func c10Carries(q *c10Req, key, head string) bool {
+	f := strings.Split(key, "|")
+	if len(f) != 4 {
+		return false
+	}
+	kind, name := f[2], f[3]
+	norm := func(s string) string { return strings.ToLower(strings.ReplaceAll(s, "_", "")) }
+	inKV := func(l []kv) bool {
+		for _, x := range l {
+			if (x.K == name || norm(x.K) == norm(name)) && strings.Contains(x.V, head) {
+				return true
+			}
+		}
+		return false
+	}
+	switch kind {
+	case "query":
+		return inKV(q.Query)
+	case "form":
+		return q.Form != nil && inKV(q.Form)
+	case "header":
+		if norm(name) == "content-type" && strings.Contains(q.CT, head) {
+			return true
+		}
+		return inKV(q.Hdr)
+	case "path":
+		return strings.Contains(q.Path, head)
+	case "body":
+		if q.Body == nil || !bytes.Contains(q.Body, []byte(head)) {
+			return false
+		}
+		if strings.Contains(q.CT, "json") {
+			var m map[string]json.RawMessage
+			if json.Unmarshal(q.Body, &m) != nil {
+				return true // not a JSON object any more (the marker broke it): the whole body is the parameter
+			}
+			for k, v := range m {
+				if norm(k) == norm(name) && bytes.Contains(v, []byte(head)) {
+					return true
+				}
+			}
+			return false
+		}
+		return true
+	}
+	return false
+}
+
 // ---------------------------------------------------------------------------------------------------
 // the run
 
@@ -793,6 +844,8 @@ func c10Taint(r *h.Result, rng *h.Rng, perPos int, inventory []string) error {
 		r.Count("inventory:stale-in-harness")
 	}
 
+	// a parameter counts as covered only when some position's request really carried a marker IN that parameter
+	carried := map[string]bool{}
 	var obs []*c10Obs
 	var vacuous []string
 	texts := map[string]bool{}
@@ -827,6 +880,11 @@ func c10Taint(r *h.Result, rng *h.Rng, perPos int, inventory []string) error {
 						m.Pre = c10Lead(prng, lv.Class, prng.Chance(25))
 					}
 					req := p.Mk(m.Val())
+					for _, key := range p.Inv {
+						if !carried[key] && c10Carries(req, key, m.Head) {
+							carried[key] = true
+						}
+					}
 					out := rt.do(req)
 					if d := os.Getenv("C10_DUMP"); d != "" && strings.Contains(p.key(), d) {
 						fmt.Fprintf(c10Stderr, "== %s cfg=%s lvl=%d status=%d note=%q\n   req=%v\n   body=%q\n", p.key(), cfg, li, out.Status, out.Note, req.replay(), out.Body)
@@ -893,6 +951,14 @@ func c10Taint(r *h.Result, rng *h.Rng, perPos int, inventory []string) error {
 		}
 		if os.Getenv("C10_SUMMARY") != "" {
 			fmt.Fprintf(c10Stderr, "SUMMARY %v reach=%d %s\n", reached, p.Reach, p.key())
+		}
+	}
+	for _, k := range inventory {
+		if known[k] && !carried[k] {
+			r.Disagree("inventory", "c10params", "a marker carried in this parameter by some position", k+": named by a position, but no request carried a marker in it", map[string]string{"position": k})
+			r.Count("inventory:named-but-never-carried")
+		} else if carried[k] {
+			r.Count("inventory:carried")
 		}
 	}
 	if len(vacuous) > 0 {
